@@ -148,6 +148,9 @@ CORPUS_CASES = [
     ([{"type": "fixed", "name": "Fx2", "size": 2}, {"type": "fixed", "name": "Fx3", "size": 3}, "bytes"], b"abc"),
     ([{"type": "fixed", "name": "Fx2", "size": 2}, {"type": "fixed", "name": "Fx3", "size": 3}, "bytes"], b"abcd"),
     ([{"type": "fixed", "name": "Fx2", "size": 2}, "bytes"], b"a"), ([{"type": "enum", "name": "En1", "symbols": ["x", "y"]}, "string"], "z"),
+    # the same enum NAME with another symbol order in consecutive writes (anything remembered per name across calls shows here)
+    ({"type": "enum", "name": "Ord", "symbols": ["A", "B", "C"]}, "C"), ({"type": "enum", "name": "Ord", "symbols": ["C", "B", "A"]}, "C"),
+    ({"type": "enum", "name": "Ord", "symbols": ["B", "C", "A"]}, "A"), ({"type": "fixed", "name": "Ord", "size": 2}, b"ab"), ({"type": "fixed", "name": "Ord", "size": 3}, b"abc"),
     (["long", "boolean"], True), (["int", "boolean"], False), (["null", "long", "boolean"], True), (["double", "boolean"], True), (["float", "boolean"], False),
     ({"type": "array", "items": ["long", "boolean"]}, [True, 1, False, 0]),
     ({"type": "record", "name": "Al", "fields": [{"name": "a", "type": "int", "default": 1, "aliases": ["old_a"]}, {"name": "b", "type": "string", "default": "d", "aliases": ["a2", "bb"]}]},
